@@ -158,15 +158,15 @@ def space(tier):
 
 def s2_tasks(tier):
     from mc.props import c03
-    ts = [dict(t, kind='c03') for t in c03.s2_tasks(tier)] if tier == 'thorough' else []
+    ts = [dict(t, src='c03') for t in c03.s2_tasks(tier)] if tier == 'thorough' else []
     n = (len(space(tier)) + 255) // 256
-    ts += [dict(kind='edge', lo=i * 256, hi=(i + 1) * 256) for i in range(n)]
+    ts += [dict(src='edge', lo=i * 256, hi=(i + 1) * 256) for i in range(n)]
     return ts
 
 
 def s2_programs(task):
     from mc.props import c03
-    if task['kind'] == 'c03':
+    if task['src'] == 'c03':
         yield from c03.s2_programs(task)
     else:
         yield PRELUDE + space(task['tier'])[task['lo']:task['hi']]
